@@ -581,7 +581,7 @@ func runXmlInChild(c Case, _ Emitter) {
 			inwf = "wf"
 		}
 	}
-	raw := xmlinZip(xmlinPackage(in, main, present, seed), in.Pk.Zip, seed)
+	raw := xmlinZip(xmlinPackage(in, main, present, seed), in.Pk.Zip, &in.Pk.Lie, seed)
 	if dir := os.Getenv("WZ_XMLIN_DUMP"); dir != "" {
 		os.WriteFile(filepath.Join(dir, fmt.Sprintf("case%d.docx", c.ID)), raw, 0o644)
 		os.WriteFile(filepath.Join(dir, fmt.Sprintf("case%d.document.xml", c.ID)), main, 0o644)
